@@ -16,6 +16,7 @@ pub fn tpl(name: &str) -> String {
         "MnC" => "{msg}\n{pos}/{len}",
         "LM" => "ab{msg}",
         "TM" => "a\tb{msg}",
+        "TB" => "{msg}\t{ z\t}",     // a tab next to a brace that stands for itself: the parser sees several literal pieces in a row
         "C" => "{pos}/{len}",
         "MC" => "{msg}{pos}",
         "KM" => "{k}{msg}",
